@@ -19,6 +19,43 @@ package deprecatedstate
 //@   requires storageRoot != nil && classHash != nil && nonce != nil
 //@   ensures result == ped(ped(ped(*classHash, *storageRoot), *nonce), felt.Zero)
 
+// The state commitment of the legacy back-end: the same case split as core/state.stateCommitment,
+// over the roots of its two tries.
+// felt.Zero is the zero value of the type (its declaration: var Zero = Felt{}).
+//@ global felt.Zero == zero(felt.Felt)
+//@ ghost func poseidon3(a felt.Felt, b felt.Felt, c felt.Felt) felt.Felt
+//@ ghost func verLess(a semver.Version, b semver.Version) bool
+//@ opaque type github.com/Masterminds/semver/v3.Version
+//@ extern func github.com/Masterminds/semver/v3.(*Version).LessThan
+//@   requires v != nil && o != nil
+//@   ensures result == verLess(*v, *o)
+//@ extern func github.com/NethermindEth/juno/core/crypto.PoseidonElems
+//@   ensures len(elems) == 3 && elems[0] != nil && elems[1] != nil && elems[2] != nil ==> result == poseidon3(*elems[0], *elems[1], *elems[2])
+//@ func (*State).storage
+//@   trusted
+//@   ensures effectfree(result1)
+//@   ensures result2 == nil ==> result0 != nil
+//@ func (*State).classesTrie
+//@   trusted
+//@   ensures effectfree(result1)
+//@   ensures result2 == nil ==> result0 != nil
+//@ extern func github.com/NethermindEth/juno/core/trie.(*Trie).Hash
+//@   logged as TrieHash
+//@ func (*State).Commitment
+//@   props C01
+//@   arith int
+//@   nosafe
+//@   requires s != nil && stateVersion != nil && core.Ver0_14_0 != nil
+//@   requires parseable: core.verParses(protocolVersion)
+//@   modifies *
+//@   assigns calls_TrieHash
+//@   splitreturns
+//@   ensures empty: result1 == nil && feltIsZero(classesRoot) && feltIsZero(storageRoot) ==> result0 == felt.Zero
+//@   ensures legacy: result1 == nil && feltIsZero(classesRoot) && !feltIsZero(storageRoot) && verLess(core.blockVer(protocolVersion), *core.Ver0_14_0) ==> result0 == storageRoot
+//@   ensures both: result1 == nil && !feltIsZero(classesRoot) ==> result0 == poseidon3(*stateVersion, storageRoot, classesRoot)
+//@   ensures modern: result1 == nil && feltIsZero(classesRoot) && !feltIsZero(storageRoot) && !verLess(core.blockVer(protocolVersion), *core.Ver0_14_0) ==> result0 == poseidon3(*stateVersion, storageRoot, classesRoot)
+//@   ensures both_tries_hashed: result1 == nil ==> calls_TrieHash == old(calls_TrieHash) + 2
+
 // ---- historical reads, legacy back-end (C03) -------------------------------------------------
 // Here a history entry at block m holds the value that was CURRENT BEFORE block m wrote: the value
 // as of height h is therefore the entry of the first block above h, and "no entry above h" means
